@@ -62,8 +62,13 @@ class _Future(Future):
             if not self.done():
                 self._me_done_callbacks.append(fn)
                 return
-        # Already done -> call it directly
-        fn(self)
+        # Already done -> call it directly.
+        # As for callbacks invoked on completion (and as in the standard
+        # Future), an exception from the callback is logged and not raised.
+        try:
+            fn(self)
+        except Exception:
+            LOG.exception("exception calling callback for %r", self)
 
     def cancel(self):
         with self._me_lock:
